@@ -196,6 +196,7 @@ func core(r *vk.Run) {
 			emu.Unlock()
 			return len(diffs) == 0
 		}
+		var stampN int64
 		for st := 0; st < steps; st++ {
 			smu.Lock()
 			step = st
@@ -218,8 +219,33 @@ func core(r *vk.Run) {
 			op := rng.Intn(10)
 			method := ""
 			var wopts []resource.WriteOption
-			if rng.Chance(1, 4) {
+			switch rng.Intn(8) {
+			case 0, 1:
 				wopts = append(wopts, resource.WithUpdatePaths("default_string", "default_nested_message", "repeated_nested_message", "map_string_nested_message"))
+			case 2:
+				wopts = append(wopts, resource.WithUpdatePaths()) // present but empty: a "touch" that writes nothing of the message
+			case 3:
+				wopts = append(wopts, resource.WithUpdatePaths("default_nested_message.a"))
+			}
+			if rng.Chance(1, 8) {
+				wopts = append(wopts, resource.WithResetPaths("default_int32"))
+			}
+			if rng.Chance(1, 4) {
+				// interceptors write into the message they are given as "new" (that is what they are for): a stamp
+				stampN++
+				stamp := stampN
+				wopts = append(wopts, resource.InterceptAfter(func(_, new proto.Message) {
+					if t, ok := new.(*tat); ok && t != nil {
+						t.DefaultInt64 = stamp
+					}
+				}))
+			}
+			if rng.Chance(1, 6) {
+				wopts = append(wopts, resource.InterceptBefore(func(_, new proto.Message) {
+					if t, ok := new.(*tat); ok && t != nil {
+						t.DefaultFloat += 1
+					}
+				}))
 			}
 			if rng.Chance(1, 6) {
 				ev := vk.GenMessage(rng, &tat{}, gen)
